@@ -1429,7 +1429,8 @@ def _einsum_single(lhs, rhs, operand):
         # scalar output - match numpy behaviour by not wrapping as array
         return new_data.sum(dtype=new_data.dtype)
 
-    return to_output_format(COO(new_coords, new_data, shape=new_shape, has_duplicates=True))
+    # sums over a removed index can cancel: do not keep explicit zeros
+    return to_output_format(COO(new_coords, new_data, shape=new_shape, has_duplicates=True, prune=True))
 
 
 def einsum(*operands, **kwargs):
